@@ -24,6 +24,15 @@ def en_token(rng, word):
             'entity': rng.choice(['O', 'I-PER', 'XX']), 'chunk': rng.choice(['I-NP', 'I-VP', 'XX'])}
 
 
+def en_token_sparse(rng, word):
+    """tokens as callers may build them by hand: only some attributes present"""
+    t = en_token(rng, word)
+    for k in ('lemma', 'pos', 'entity', 'chunk'):
+        if rng.random() < 0.4:
+            del t[k]
+    return t
+
+
 def ja_token(rng, word):
     t = {'word': word, 'pos': rng.choice(['名詞', '動詞', 'noun']), 'pos1': rng.choice(['*', '一般', 'g']),
          'pos2': '*', 'pos3': '*', 'inflectionForm': rng.choice(['*', '基本形']), 'inflectionType': rng.choice(['*', 'v5'])}
@@ -172,10 +181,10 @@ def proj_real(tree):
     return {'k': 'U' if len(kids) == 1 else 'B', 'cat': cat, 'lab': tree.op_string, 'sym': tree.op_symbol, 'hl': bool(tree.head_is_left), 'tok': [], 'kids': kids}
 
 
-def make_batch(rng, lang, nsent=None, nbest=None, awkward=0.4, exclude='', licensed_p=0.6, maxlen=5):
+def make_batch(rng, lang, nsent=None, nbest=None, awkward=0.4, exclude='', licensed_p=0.6, maxlen=5, sparse=False):
     """-> list (sentences) of lists (n-best) of tree dicts; all trees of one sentence share the tokens"""
     from depccg.cat import Category
-    tokfn = en_token if lang == 'en' else ja_token
+    tokfn = (en_token_sparse if sparse else en_token) if lang == 'en' else ja_token
     lexicon = EN_LEXICON if lang == 'en' else JA_LEXICON
     labels = EN_LABELS if lang == 'en' else JA_LABELS
     catpool = [enc.parse_text(s) for s in lexicon]
